@@ -41,7 +41,10 @@ CFG = {
             "early / middle / last byte, the same hash as key and as script credential, both networks, all voter kinds, output indices "
             "0..2^32-1, inline and reference script sources, all 19 certificate kinds, six governance-action kinds), ALL permutations of "
             "k pairwise distinct items (k <= 4 quick, <= 6 thorough) per builder, mixtures of all builders, re-added items (last / first "
-            "call wins, duplicates rejected, wrong entry point rejected, zero mint amount), the three known classes, missing collateral, "
+            "call wins, duplicates rejected, wrong entry point rejected), value corners (withdrawals of exactly 0 lovelace before / between / "
+            "after Plutus withdrawals, 1, 2^32 and random coins, zero deposits and refunds, zero-ada inputs, proposal deposit 0, mint amount 0, "
+            "several assets per policy, burns taking back part or all of an asset = net quantity 0, set_asset), the three known classes, "
+            "identical redeemers, missing collateral, "
             "long sequences; every case goes through real sub-builders, TransactionBuilder::calc_script_data_hash / add_change_if_needed / "
             "build_tx, the transaction is serialised and re-parsed, body items are read in wire order and redeemers from the witness set; "
             "each redeemer carries an integer marker in its data (and a wrong tag/index on input); comparison = exact equality of per-call "
@@ -60,7 +63,9 @@ CFG = {
         "known classes excluded from C10_spend / C10_unique: C10-collateral-plutus (the collateral builder holds a Plutus witness), "
         "C10-stale-spend-witness (an input was re-added under another script hash while a Plutus witness stays registered under the first); "
         "from the proposal part of C10_only_script_items: C10-proposal-redeemer-without-script",
-        "scripts, datums, ex-units, assets, amounts and vote contents are not modelled (they do not influence pointers); ex-units are the "
+        "scripts, datums, ex-units, withdrawal / deposit / input amounts and vote contents are not modelled (the harness varies them, zero "
+        "included: they must not influence body items or pointers); mint quantities are modelled up to 'net quantity 0 = build error' "
+        "(quantities outside the Int range and negative net quantities are not generated); ex-units are the "
         "same for all redeemers in the harness, so redeemer identity is (tag, index, data)",
         "proposals of one case differ only in (action variant, policy hash, deposit), so Rust's derived order on VotingProposal is the order "
         "on that triple; UpdateCommittee actions are not generated",
